@@ -21,6 +21,7 @@ import pytest
 from vivarium.library.dict_utils import (
     deep_merge, deep_merge_check, deep_copy_internal)
 from vivarium.library.topology import assoc_path, get_in
+from vivarium.library import verif_hooks
 from vivarium.core.types import (
     HierarchyPath, Schema, State, Update,
     Topology, Flow)
@@ -748,6 +749,7 @@ class ParallelProcess(Process):
         if run_pre_check:
             self.pre_send_command(command, args, kwargs)
         self.parent.send((command, args, kwargs))
+        verif_hooks.emit('send', name=self.name, command=command)
 
     def get_command_result(self) -> Update:
         """Get the result of a command sent to the parallel process.
@@ -766,6 +768,7 @@ class ParallelProcess(Process):
                 'Trying to retrieve command result, but no command is '
                 'pending.')
         self._pending_command = None
+        verif_hooks.emit('recv', name=self.name)
         return self.parent.recv()
 
     def initial_state(self, config: Optional[dict] = None) -> State:
@@ -834,6 +837,9 @@ class ParallelProcess(Process):
         will compile its profiling stats and send those to the parent.
         The parent then saves those stats in ``self.stats``.
         """
+        verif_hooks.emit(
+            'end_begin', name=self.name, ended=self._ended,
+            pending=bool(self._pending_command))
         # Only end once.
         if self._ended:
             return
@@ -846,6 +852,7 @@ class ParallelProcess(Process):
         self.multiprocess.join()
         self.multiprocess.close()
         self._ended = True
+        verif_hooks.emit('end_done', name=self.name)
 
     def __del__(self) -> None:
         self.end()
